@@ -4,8 +4,11 @@ CONSTANTS Acct <- AcctC
  BaseSet <- BaseNest
  MaxSteps = 6
  MaxSnap = 3
+ MaxRevs = 99
+ MaxOuter = 99
+ MaxInner = 99
  WithSeal = FALSE
  FreeVals = FALSE
  Dv <- NoDev
-INVARIANTS UndoMatchesSaved NoPanic RevsOK DiscardAllIsBase RedoEqualsExec NoTraceOfReverted
+INVARIANTS UndoMatchesSaved NoPanic RevsOK DiscardAllIsBase RedoEqualsExec NoTraceOfReverted SaveSucceeds
 CHECK_DEADLOCK FALSE
